@@ -111,3 +111,59 @@ func H_C09_keep_long(n int) {
 	zzrt.Assert(len(n2.Mm[5]) == n, "long list inside an unknown map preserved")
 	zzrt.Cover("end")
 }
+
+
+// H_C09_keep_kinds: every kind of added field, each of them possibly the LAST unknown field of its
+// struct (a bool, a byte and an empty struct are the shortest stored forms), survives read +
+// re-write by the older code.
+func H_C09_keep_kinds() {
+	n := nw.NewRoot()
+	n.R = zzrt.Int32("r")
+	n.Inn = &nw.Inner{A: zzrt.Int32("a")}
+	if zzrt.Bool("set") {
+		f := zzrt.Bool("flag")
+		n.Inn.Flag = &f
+	}
+	n.Extra = &nw.Inner{A: 1}
+	if zzrt.Bool("set") {
+		v := zzrt.Bool("nb")
+		n.Nb = &v
+	}
+	if zzrt.Bool("set") {
+		v := zzrt.Int8("ny")
+		n.Ny = &v
+	}
+	if zzrt.Bool("set") {
+		v := zzrt.Int16("ns")
+		n.Ns = &v
+	}
+	if zzrt.Bool("set") {
+		v := nw.E(zzrt.Int32("ne"))
+		n.Ne = &v
+	}
+	if zzrt.Bool("set") {
+		n.Nbin = zzrt.Bytes("nbin", 1)
+	}
+	if zzrt.Bool("set") {
+		n.Nset = []int64{zzrt.Int64("nset")}
+	}
+	if zzrt.Bool("set") {
+		n.Emp = &nw.Empty{}
+	}
+	o := od.NewRoot()
+	zzrt.Assert(o.Read(zzProto(zzBytes(n))) == nil, "old reads new")
+	n2 := nw.NewRoot()
+	zzrt.Assert(n2.Read(zzProto(zzBytes(o))) == nil, "new reads what old re-wrote")
+	A := zzrt.Assert
+	A(n2.R == n.R && n2.Inn != nil && n2.Inn.A == n.Inn.A, "common fields")
+	A((n2.Inn.Flag == nil) == (n.Inn.Flag == nil) && (n.Inn.Flag == nil || *n2.Inn.Flag == *n.Inn.Flag), "bool added to a nested struct (its last unknown field)")
+	A((n2.Nb == nil) == (n.Nb == nil) && (n.Nb == nil || *n2.Nb == *n.Nb), "added bool")
+	A((n2.Ny == nil) == (n.Ny == nil) && (n.Ny == nil || *n2.Ny == *n.Ny), "added byte")
+	A((n2.Ns == nil) == (n.Ns == nil) && (n.Ns == nil || *n2.Ns == *n.Ns), "added i16")
+	A((n2.Ne == nil) == (n.Ne == nil) && (n.Ne == nil || *n2.Ne == *n.Ne), "added enum")
+	A((n2.Nbin == nil) == (n.Nbin == nil) && string(n2.Nbin) == string(n.Nbin), "added binary")
+	A(len(n2.Nset) == len(n.Nset) && (len(n.Nset) == 0 || n2.Nset[0] == n.Nset[0]), "added set")
+	A((n2.Emp == nil) == (n.Emp == nil), "added struct without members")
+	A(o.Inn.CarryingUnknownFields() == (n.Inn.Flag != nil), "nested struct carries exactly the added bool")
+	zzrt.Cover("end")
+}
